@@ -90,6 +90,11 @@ CLAIMED["C11"] = ("5/C11",
    "Not covered: stake = risk-adjusted value within one unit per lock, supply neutrality as a number, drift over epochs. Trusted: staking keeper semantics, cache-context helper (C17).",
    "SSA origin-term / pairing / order rules + cache-context closure containment")
 
+CLAIMED["C02"] = ("5/C02",
+   "Static rules over x/gamm/keeper and x/poolmanager decide: every pool-record mutation is paired on every success path with bank operations on the same coin values (swap: token-in trader->pool, token-out pool->trader; join: coins + share mint; exit: coins + share burn); share mint/burn use the pool's own share denom and the same amount; each of the six join/exit/swap entry points hands the state-change helper exactly the values it gave to or received from the pool model (paired-result rule); the taker fee is the exact difference between the amount paid and the amount that reaches the pool, computed from the very value returned, sent to the collector; the router passes the after-fee coin; pool records are written only by the listed functions.",
+   "Not covered: bank balance = reported reserves over histories, supply of non-share tokens, cosmwasm pools, pool-model internals. Trusted: bank keeper semantics.",
+   "SSA origin-term / pairing (paired-argument, paired-result) / who-may-call rules")
+
 NOT_YET = "check not built yet in this revision (static rule set under construction; see DESIGN.md section 5)"
 
 def main():
